@@ -66,6 +66,19 @@ def run_history(ops):
                 cls = lat[op[1]]
                 pp.register_pretty(cls.__module__ + '.' + cls.__qualname__)(lambda v, ctx, _t='P%d' % pid: _t)
                 req.append('(rn %d %d)' % (op[1], pid))
+            elif k in ('rnS', 'rcS'):
+                # one and the same function object registered again and again (a module set up twice, install_extras called again):
+                # by name ('rnS') or directly ('rcS'); it prints a tag of its own, so "latest registration wins" stays observable
+                pid = (900 if k == 'rnS' else 950) + op[1]
+                if (k, op[1]) not in shared:
+                    shared[(k, op[1])] = lambda v, ctx, _t='P%d' % pid: _t
+                cls = lat[op[1]]
+                if k == 'rnS':
+                    pp.register_pretty(cls.__module__ + '.' + cls.__qualname__)(shared[(k, op[1])])
+                    req.append('(rn %d %d)' % (op[1], pid))
+                else:
+                    pp.register_pretty(cls)(shared[(k, op[1])])
+                    req.append('(rc %d %d)' % (op[1], pid))
             elif k == 'rp':
                 pid = 100 + i
                 q = op[1]
@@ -113,6 +126,8 @@ def spec_trace(ops):
         k = op[0]
         if k in ('rc', 'rn'):
             latest[op[1]] = 100 + i
+        elif k in ('rnS', 'rcS'):
+            latest[op[1]] = (900 if k == 'rnS' else 950) + op[1]
         elif k in ('rp', 'rs'):
             preds.append((op[1], 100 + i))
         elif k == 'pr':
@@ -146,6 +161,9 @@ ALPHABET = ([('rc', c) for c in (1, 2, 3)] + [('rn', c) for c in (1, 2, 3)] + [(
 
 PRED_ALPHABET = [('rp', 7), ('rp', 8), ('rs', 7), ('pr', 5, (7,)), ('pr', 5, (8,)), ('pr', 5, (7, 8)), ('pr', 2, (8, 7))]
 
+# the same printer function registered repeatedly, by name and directly, around prints that promote pending entries
+SHARED_ALPHABET = [('rnS', 2), ('rcS', 2), ('rn', 2), ('rc', 2), ('rnS', 1), ('pr', 2, ()), ('pr', 4, ()), ('q', 2, (1, 1, 1))]
+
 _drv = None
 
 
@@ -176,7 +194,7 @@ def chunk_fn(histories):
                     if len(fails) < 3:
                         fails.append({'kind': 'dispatch-not-nearest-latest', 'history': [list(o) for o in ops], 'observed': toks, 'expected': spec})
                     break
-        if any(o[0] in ('rn',) for o in ops) and any(o[0] == 'pr' for o in ops):
+        if any(o[0] in ('rn', 'rnS') for o in ops) and any(o[0] == 'pr' for o in ops):
             nt += 1
     return len(histories), nt, mism, fails
 
@@ -199,6 +217,8 @@ def registry_section(tier, seed):
     for n in range(1, (4 if tier == 'quick' else 5) + 1):
         hist_pred.extend(itertools.product(PRED_ALPHABET, repeat=n))
     hist.extend(hist_pred)
+    for n in range(1, (5 if tier == 'quick' else 6) + 1):
+        hist.extend(h for h in itertools.product(SHARED_ALPHABET, repeat=n) if any(o[0] in ('rnS', 'rcS') for o in h) and h[-1][0] in ('pr', 'q'))
     for _ in range(n_rand // 4):
         k = rng.randint(5, 15)
         hist.append(tuple(rng.choice(PRED_ALPHABET + ALPHABET[:8]) for _ in range(k)))
@@ -214,7 +234,7 @@ def registry_section(tier, seed):
     stats = {'evaluations': tot, 'distinct_nontrivial': nt, 'exhaustive_length': L, 'alphabet': len(ALPHABET), 'random_histories': n_rand,
              'mismatches': len(mism), 'exhaustive': True,
              'samples': [{'history': [list(o) for o in hist[5000 % len(hist)]]}, {'history': [list(o) for o in hist[-1]]}],
-             'rule': 'all operation sequences of length <= 4 (thorough 5) over two overlapping predicates and values accepted by one, the other or both; all operation sequences of length <= %d over %d operations (register by class / by name / predicate, print instances of A, B(A), D(B,C), M(E,A), E, '
+             'rule': 'all operation sequences of length <= 5 (thorough 6) ending in an observation over registrations that reuse one printer function object (by name / directly) next to fresh ones; all operation sequences of length <= 4 (thorough 5) over two overlapping predicates and values accepted by one, the other or both; all operation sequences of length <= %d over %d operations (register by class / by name / predicate, print instances of A, B(A), D(B,C), M(E,A), E, '
                      'is_registered with 6 flag combinations) on a fresh diamond + multiple-inheritance lattice, plus random histories of length 5-25; '
                      'observed: which printer ran, booleans, ValueError; non-trivial = histories containing a by-name registration and a print' % (L, len(ALPHABET))}
     return stats, mism, fails
